@@ -25,6 +25,12 @@ def KindsOk (g : Grammar) : Prop :=
 
 instance (g : Grammar) : Decidable (KindsOk g) := by unfold KindsOk; infer_instance
 
+/-- no reserved-name clash (fix D15; these are refused with their own message and are not among the property's
+    clauses): `reservedUse g = none` -/
+def NoReserved (g : Grammar) : Prop := reservedUse g = none
+
+instance (g : Grammar) : Decidable (NoReserved g) := by unfold NoReserved; infer_instance
+
 theorem firstDup_none {l : List String} : firstDup l = none ↔ l.Nodup := by
   induction l with
   | nil => simp [firstDup]
@@ -56,9 +62,11 @@ theorem firstDup_some {l : List String} {x : String} (h : firstDup l = some x) :
       rw [List.count_cons]; omega
 
 /-- (C14-sem) MAIN: the semantic checks pass exactly on the grammars that satisfy the property's clauses -/
-theorem C14_semCheck_iff (g : Grammar) (imports : List String) (hk : KindsOk g) :
+theorem C14_semCheck_iff (g : Grammar) (imports : List String) (hk : KindsOk g) (hres : NoReserved g) :
     semCheck g imports = .ok () ↔ SemWF g imports := by
   unfold semCheck
+  unfold NoReserved at hres
+  simp only [hres]
   constructor
   · intro h
     simp only [bind, Except.bind, pure, Except.pure, throw, throwThe, MonadExceptOf.throw] at h
@@ -127,9 +135,24 @@ theorem C14_semCheck_iff (g : Grammar) (imports : List String) (hk : KindsOk g) 
     simp only [h1, h2, h3, h4, pure, Except.pure]
 
 /-- the executable oracle of the check agrees with the model on everything the front end can produce -/
-theorem C14_semCheck_iff_oracle (g : Grammar) (imports : List String) (hk : KindsOk g) :
+theorem C14_semCheck_iff_oracle (g : Grammar) (imports : List String) (hk : KindsOk g) (hres : NoReserved g) :
     semCheck g imports = .ok () ↔ semWFb g imports = true :=
-  (C14_semCheck_iff g imports hk).trans (semWFb_iff g imports).symm
+  (C14_semCheck_iff g imports hk hres).trans (semWFb_iff g imports).symm
+
+/-- a reserved-name clash is always refused (whatever else is wrong with the file, something is reported) -/
+theorem C14_semCheck_reserved (g : Grammar) (imports : List String) (h : ¬ NoReserved g) :
+    semCheck g imports ≠ .ok () := by
+  unfold NoReserved at h
+  unfold semCheck
+  cases hr : reservedUse g with
+  | none => exact absurd hr h
+  | some n =>
+    simp only [bind, Except.bind, pure, Except.pure, throw, throwThe, MonadExceptOf.throw]
+    split
+    · intro h'; cases h'
+    split
+    · intro h'; cases h'
+    intro h'; cases h'
 
 /-- each reported error has a culprit in the grammar -/
 theorem C14_semCheck_culprit {g : Grammar} {im : List String} {e : SemErr}
@@ -138,7 +161,8 @@ theorem C14_semCheck_culprit {g : Grammar} {im : List String} {e : SemErr}
     | .dupDef id => 2 ≤ (g.lex.map (·.id)).count id
     | .emptyAlt hd => ∃ p ∈ g.syn, p.head = hd ∧ p.body = []
     | .undefinedProd s => ∃ p ∈ g.syn, ∃ x ∈ p.body, x.kind = .prodId ∧ x.name = s ∧ s ∉ g.syn.map (·.head)
-    | .undefinedRegDef r user => ∃ p ∈ g.lex, p.id = user ∧ r ∈ p.pat.refs ∧ r ∉ regDefIds g ∧ r ∉ im := by
+    | .undefinedRegDef r user => ∃ p ∈ g.lex, p.id = user ∧ r ∈ p.pat.refs ∧ r ∉ regDefIds g ∧ r ∉ im
+    | .reserved _ => ¬ NoReserved g := by
   unfold semCheck at h
   simp only [bind, Except.bind, pure, Except.pure, throw, throwThe, MonadExceptOf.throw] at h
   split at h
@@ -150,6 +174,12 @@ theorem C14_semCheck_culprit {g : Grammar} {im : List String} {e : SemErr}
     cases h
     have := List.find?_some hf
     exact ⟨p, List.mem_of_find?_eq_some hf, rfl, by simpa using this⟩
+  split at h
+  · rename_i n hf
+    cases h
+    show ¬ NoReserved g
+    unfold NoReserved
+    rw [hf]; intro h'; cases h'
   split at h
   · rename_i s hf
     cases h
@@ -194,7 +224,8 @@ def syn : List SProd := [
 def good : Grammar := { lex := lex, syn := syn }
 example : KindsOk good := by decide
 example : semCheck good = .ok () := by decide
-example : SemWF good [] := (C14_semCheck_iff good [] (by decide)).1 (by decide)
+example : NoReserved good := by decide
+example : SemWF good [] := (C14_semCheck_iff good [] (by decide) (by decide)).1 (by decide)
 /-- reference renaming, also to a name whose capital is not ASCII (defect D14) -/
 example : semCheck { good with syn := syn ++ [{ head := "E", body := [⟨.prodId, "Undefined9"⟩] }] }
     = .error (.undefinedProd "Undefined9") := by decide
@@ -210,6 +241,16 @@ example : semCheck { good with lex := lex ++ [{ kind := .tok, id := "x", pat := 
 example : semCheck { good with lex := lex ++ [lex[0]!] } = .error (.dupDef "_d") := by decide
 example : semCheck { good with lex := lex ++ [lex[1]!] } = .error (.dupDef "num") := by decide
 example : semCheck { good with lex := lex ++ [lex[2]!] } = .error (.dupDef "!ws") := by decide
+/-- reserved spellings (fix D15): refused with their own error -/
+example : semCheck { good with syn := syn ++ [{ head := "E", body := [⟨.strLit, "INVALID"⟩] }] } = .error (.reserved "INVALID") := by decide
+example : semCheck { good with syn := syn ++ [{ head := "E", body := [⟨.strLit, "␚"⟩, ⟨.tokId, "num"⟩] }] } = .error (.reserved "␚") := by decide
+example : semCheck { good with syn := syn ++ [{ head := "INVALID", body := [⟨.tokId, "num"⟩] }] } = .error (.reserved "INVALID") := by decide
+/-- a string literal spelled like a production declared LATER -/
+example : semCheck { good with syn := [{ head := "A", body := [⟨.strLit, "B"⟩, ⟨.prodId, "B"⟩] }, { head := "B", body := [⟨.tokId, "num"⟩] }] }
+    = .error (.reserved "B") := by decide
+example : semCheck { good with syn := syn ++ [{ head := "E", body := [⟨.tokId, "num"⟩, ⟨.tokId, "empty"⟩] }] } = .error (.reserved "empty") := by decide
+/-- `empty` alone, and the string literals "empty" / "error" (gocc's own grammar uses them), are not refused -/
+example : semCheck { good with syn := syn ++ [{ head := "E", body := [⟨.tokId, "empty"⟩] }, { head := "E", body := [⟨.strLit, "error"⟩, ⟨.strLit, "empty"⟩] }] } = .ok () := by decide
 /-- emptied alternative -/
 example : semCheck { good with syn := syn ++ [{ head := "E", body := [] }] } = .error (.emptyAlt "E") := by decide
 /-- `KindsOk` is needed: a "production name" spelled like a token id is found among `defs` by `consistent` -/
